@@ -26,8 +26,15 @@ def sh(cmd, cwd=None, env=None, timeout=3600):
     e = dict(os.environ)
     if env:
         e.update(env)
-    p = subprocess.run(cmd, shell=True, cwd=cwd, env=e, stdout=subprocess.PIPE, stderr=subprocess.STDOUT, timeout=timeout)
-    return p.returncode, p.stdout.decode("utf-8", "replace")
+    import signal
+    p = subprocess.Popen(cmd, shell=True, cwd=cwd, env=e, stdout=subprocess.PIPE, stderr=subprocess.STDOUT, start_new_session=True)
+    try:
+        out, _ = p.communicate(timeout=timeout)
+    except subprocess.TimeoutExpired:
+        os.killpg(p.pid, signal.SIGKILL)  # the whole process group: a check that hangs on a non-terminating library call
+        p.communicate()
+        return 124, "timeout"
+    return p.returncode, out.decode("utf-8", "replace")
 
 
 def evaluate(sid, thorough=False, all_props=False):
@@ -68,7 +75,7 @@ def evaluate(sid, thorough=False, all_props=False):
             for tier in (["quick", "thorough"] if thorough else ["quick"]):
                 for sd in (seeds if tier == "quick" else seeds[:1]):
                     t0 = time.time()
-                    rc, out = sh(f"./check {p} {tier} --no-evidence", cwd=HERE, env={"VERIF_REPO": wt, "VERIF_SEED": str(sd)}, timeout=7200)
+                    rc, out = sh(f"./check {p} {tier} --no-evidence", cwd=HERE, env={"VERIF_REPO": wt, "VERIF_SEED": str(sd)}, timeout=1500)
                     lines = [l for l in out.splitlines() if l.startswith("  check=")]
                     key = f"{p}:{tier}" if sd == seeds[0] else f"{p}:{tier}:seed{sd}"
                     res["checks"][key] = {"exit": rc, "seed": sd, "wall_s": round(time.time() - t0, 1),
